@@ -13,6 +13,9 @@ for p in (os.path.join(VERIF, "stubs"), REPO):
         sys.path.insert(0, p)
 
 import numpy as np  # noqa: E402
+import sys as _sys
+
+_sys.set_int_max_str_digits(0)  # rational model values can have thousands of digits
 import z3  # noqa: E402
 
 from symx import values as V  # noqa: E402
